@@ -69,4 +69,22 @@ Fixpoint a_run (f : pred) (s : astate) (ops : list aop) : list aobs :=
   | o :: t => let (s', r) := a_step f s o in r :: a_run f s' t
   end.
 
+(* the abstract state reached by an operation list *)
+Fixpoint a_exec (f : pred) (s : astate) (ops : list aop) : astate :=
+  match ops with
+  | [] => s
+  | o :: t => a_exec f (fst (a_step f s o)) t
+  end.
+
+(* "the predicate holds on the accumulated bytes": it says done and reports no error *)
+Definition holds (f : pred) (b : bytes) : bool :=
+  match f b with (true, None) => true | _ => false end.
+
+(* a unit: nothing, or a unit start followed by packets that are not unit starts *)
+Definition unit_shape (ps : list bytes) : Prop :=
+  match ps with
+  | [] => True
+  | p :: t => has_pusi p = true /\ Forall (fun q => has_pusi q = false) t
+  end.
+
 End AccSpec.
